@@ -191,6 +191,10 @@ class ProgressivelyTerminalDecider(BaseDecider):
 
         production_weights = self.grammar.get_weights()
         weights = [w(alt) * production_weights.get(alt, 1.0) for alt in alternatives]
+        if not any(x > 0 for x in weights):
+            # the depth heuristic vanished for every alternative: the production weights alone decide
+            # (otherwise choice_weighted falls through to the first alternative, whatever its weight)
+            weights = [production_weights.get(alt, 1.0) for alt in alternatives]
         return self.random.choice_weighted(alternatives, weights)
 
 
